@@ -64,7 +64,7 @@ impl C14 {
 }
 
 /// kinds of the injected transient write error
-const ERR_KINDS: [std::io::ErrorKind; 10] = [
+const ERR_KINDS: [std::io::ErrorKind; 11] = [
     std::io::ErrorKind::WouldBlock,
     std::io::ErrorKind::TimedOut,
     std::io::ErrorKind::ConnectionReset,
@@ -75,6 +75,8 @@ const ERR_KINDS: [std::io::ErrorKind; 10] = [
     std::io::ErrorKind::UnexpectedEof,
     std::io::ErrorKind::WriteZero,
     std::io::ErrorKind::PermissionDenied,
+    // (a short write followed by EINTR inside one frame: the standard library simply calls again)
+    std::io::ErrorKind::Interrupted,
 ];
 
 /// inbound frames for WP::AfterInbound: X.224 disconnect request, error, connection confirm, expedited data, a data TPDU
@@ -315,7 +317,7 @@ impl Prop for C14 {
         json!({"idx": idx, "case": self.cases[idx as usize]})
     }
     fn rule(&self) -> String {
-        "cases = (layer in {tpkt, x224, link}, payload length, write behaviour of the stream); lengths 0..70000 all enumerated on an accepting stream; structured messages (every one-field and several three-field shapes of the C18 message model: size-dependent, skippable, optional, nested fields) framed by tpkt::Client::write; short-write caps {1,2,3,4,5,7,8,1024} for every length <= 300 and every 16-bit boundary length; every composition of write sizes for frames <= 12 bytes; zero-length writes; an error injected at every byte position for lengths <= 64 and boundary lengths; EINTR once; one transient error of 10 kinds (WouldBlock, TimedOut, ConnectionReset, ConnectionAborted, BrokenPipe, NotConnected, UnexpectedEof, WriteZero, PermissionDenied, Other) at every byte position after which the stream accepts again; sequences of 2 (3 in thorough) messages on the same layer object, the first one meeting an error before its first byte / after one byte / in mid-frame / on its last byte, one-byte writes, a zero-length write or EINTR, the later ones judged like a first message; runs of 300 and 70 000 messages on one layer object; over-long messages (limit + 1 .. 200000, and L + 65536 after L) before, between and after ordinary ones on one layer object; a message written after one inbound frame of nine kinds was read on the same object (X.224 disconnect request / error / connection confirm / expedited data, data TPDUs, a fast-path frame, one-byte and empty TPKT bodies), after shutdown() or after a read that hit the end of the inbound stream (raw link: the outbound direction still accepts, the frame must go out); plus 18 full real conversations over TLS (NLA on/off) with a transport accepting k bytes per write, k in {1,2,3,5,7,16,1024}, an irregular size sequence, and EINTR. Non-trivial: the stream deviates from accepting everything, or the length is within 8 of a 7/14/15/16-bit boundary or above the frame limit.".into()
+        "cases = (layer in {tpkt, x224, link}, payload length, write behaviour of the stream); lengths 0..70000 all enumerated on an accepting stream; structured messages (every one-field and several three-field shapes of the C18 message model: size-dependent, skippable, optional, nested fields) framed by tpkt::Client::write; short-write caps {1,2,3,4,5,7,8,1024} for every length <= 300 and every 16-bit boundary length; every composition of write sizes for frames <= 12 bytes; zero-length writes; an error injected at every byte position for lengths <= 64 and boundary lengths; EINTR once; one transient error of 11 kinds (WouldBlock, TimedOut, ConnectionReset, ConnectionAborted, BrokenPipe, NotConnected, UnexpectedEof, WriteZero, PermissionDenied, Interrupted, Other) at every byte position after which the stream accepts again; sequences of 2 (3 in thorough) messages on the same layer object, the first one meeting an error before its first byte / after one byte / in mid-frame / on its last byte, one-byte writes, a zero-length write or EINTR, the later ones judged like a first message; runs of 300 and 70 000 messages on one layer object; over-long messages (limit + 1 .. 200000, and L + 65536 after L) before, between and after ordinary ones on one layer object; a message written after one inbound frame of nine kinds was read on the same object (X.224 disconnect request / error / connection confirm / expedited data, data TPDUs, a fast-path frame, one-byte and empty TPKT bodies), after shutdown() or after a read that hit the end of the inbound stream (raw link: the outbound direction still accepts, the frame must go out); plus 18 full real conversations over TLS (NLA on/off) with a transport accepting k bytes per write, k in {1,2,3,5,7,16,1024}, an irregular size sequence, and EINTR. Non-trivial: the stream deviates from accepting everything, or the length is within 8 of a 7/14/15/16-bit boundary or above the frame limit.".into()
     }
     fn assumptions(&self) -> Vec<String> {
         vec![
